@@ -41,6 +41,7 @@ type scenOpts struct {
 func newSim(w *vsim.World, spec *vsim.Spec, o scenOpts) *sim {
 	s := &sim{w: w, spec: spec, t0: time.Now(), rate: map[string]int{}, everStarted: map[string]int{}, staleUnlock: map[string]bool{},
 		killOblig: map[string]*killObligation{}, evOn: map[string]bool{}, origPrio: map[string]int64{}, o: o}
+	w.GateSpawn = true // children of `go` statements start at a scheduler decision, never concurrently with the parent
 	s.k = drawKnobs(w)
 	k := s.k
 	s.cluster = &arvados.Cluster{ClusterID: "zzzzz", SystemRootToken: "simroot"}
@@ -439,7 +440,7 @@ func horizonFor(spec *vsim.Spec) time.Duration {
 	if spec.Tier == "thorough" {
 		return 2 * time.Hour
 	}
-	return 25 * time.Minute
+	return 10 * time.Minute
 }
 
 func maxContainers(spec *vsim.Spec) int {
